@@ -92,6 +92,8 @@ func (r *runner) handle(n note) {
 		n.wk.state = "H"
 	case "prefinish":
 		n.wk.state = "F"
+	case "prestart":
+		n.wk.state = "P"
 	case "done":
 		e.mu.Lock()
 		n.wk.state = "D"
@@ -384,7 +386,7 @@ func (r *runner) sync() {
 func (r *runner) waitWorker(w *worker) bool {
 	pred := func(n note) bool {
 		switch n.kind {
-		case "loader", "hook", "done", "prefinish":
+		case "loader", "hook", "done", "prefinish", "prestart":
 			return n.wk == w
 		case "blocked":
 			return n.ba.party == w
@@ -400,7 +402,7 @@ func (r *runner) waitWorker(w *worker) bool {
 	return r.pump(pred)
 }
 
-func (r *runner) opPop() string {
+func (r *runner) opPop(hold bool) string {
 	e := r.e
 	if r.mgrBlocked {
 		return "refused"
@@ -421,7 +423,7 @@ func (r *runner) opPop() string {
 		return "none"
 	}
 	task := tasks[0]
-	w := &worker{id: len(e.workers), peer: peerIdx(pid), idIdx: e.idIndex(task.Topic.(graphsync.RequestID)), state: "R", release: make(chan bool)}
+	w := &worker{id: len(e.workers), peer: peerIdx(pid), idIdx: e.idIndex(task.Topic.(graphsync.RequestID)), state: "R", release: make(chan bool), holdStart: hold}
 	e.mu.Lock()
 	e.workers = append(e.workers, w)
 	e.mu.Unlock()
@@ -448,7 +450,7 @@ func (r *runner) opStep(wi int) string {
 		return "bad"
 	}
 	w := e.workers[wi]
-	if w.state != "L" && w.state != "H" && w.state != "F" {
+	if w.state != "L" && w.state != "H" && w.state != "F" && w.state != "P" {
 		return "bad"
 	}
 	if w.state == "L" {
@@ -589,7 +591,8 @@ func (r *runner) snapshot() string {
 // flight") or waiting for the manager (M); parked in a loader / hook / reservation is quiescent
 func (r *runner) quiescentWorkers() bool {
 	for _, w := range r.e.workers {
-		if w.state == "F" || w.state == "M" || w.state == "R" {
+		// P: between PopTasks and StartTask (a transient of the worker, not a resting state of the node)
+		if w.state == "F" || w.state == "M" || w.state == "R" || w.state == "P" {
 			return false
 		}
 	}
@@ -1004,12 +1007,29 @@ func (r *runner) signalOK(ids []int) bool {
 // no second ready channel to the executor's select
 func (r *runner) signalUpd(ids []int) bool {
 	for _, id := range ids {
-		if r.sig[id] == 1 {
+		if r.sig[id] == 1 || r.sig[id] == 3 {
 			return false
 		}
 	}
 	for _, id := range ids {
 		r.sig[id] = 2
+	}
+	return true
+}
+
+// likewise a further abort (cancel message, CancelResponse, failed send) while the only pending signal
+// is an error signal (value 3): ErrSignal has one slot and abortRequest sends without blocking
+func (r *runner) signalErr(ids []int) bool {
+	for _, id := range ids {
+		if r.sig[id] == 1 || r.sig[id] == 2 {
+			return false
+		}
+	}
+	for _, id := range ids {
+		if r.sig[id] == 3 {
+			r.out.Cov("abort.second-before-signal-check")
+		}
+		r.sig[id] = 3
 	}
 	return true
 }
@@ -1098,7 +1118,7 @@ func (r *runner) exec(op []string) string {
 		if p < 0 || p >= e.npeers || !idOK(id) {
 			return "bad"
 		}
-		if !r.signalOK(r.signalling(id, graphsync.Running)) {
+		if !r.signalErr(r.signalling(id, graphsync.Running)) {
 			return "refused"
 		}
 		req := gsmsg.NewCancelRequest(e.ids[id])
@@ -1151,7 +1171,7 @@ func (r *runner) exec(op []string) string {
 		if !idOK(id) {
 			return "bad"
 		}
-		if !r.signalOK(r.signalling(id, graphsync.Running)) {
+		if !r.signalErr(r.signalling(id, graphsync.Running)) {
 			return "refused"
 		}
 		return r.api(func() string { return errClass(e.rm.CancelResponse(e.ctx, e.ids[id])) })
@@ -1166,7 +1186,10 @@ func (r *runner) exec(op []string) string {
 		}
 		return r.api(func() string { return errClass(e.rm.UpdateResponse(e.ctx, e.ids[id], exts...)) })
 	case "pop":
-		return r.opPop()
+		return r.opPop(false)
+	case "popq":
+		// PopTasks by a worker that is then held before StartTask; `step <w>` lets it go on
+		return r.opPop(true)
 	case "step":
 		return r.opStep(atoi(arg(1)))
 	case "net":
@@ -1181,7 +1204,7 @@ func (r *runner) exec(op []string) string {
 				}
 			}
 			sort.Ints(ids)
-			if !r.signalOK(ids) {
+			if !r.signalErr(ids) {
 				return "refused"
 			}
 		}
